@@ -89,7 +89,14 @@ def scen(w, steps=2):
         prefix = list(res[0])
         nflush = 1 if deferred is not None else 0
         flush, script, resync = prefix[:nflush], prefix[nflush:nflush + 1], prefix[nflush + 1:]
-        conds = [script == EXIT_LINES, len(resync) >= 2]
+        # the re-synchronisation is ONE episode's: one G92 E, one G0 with X/Y, at most one Z-only G0, nothing else
+        # (stale re-positioning of an earlier episode would be a spurious travel move)
+        rd = [rs274.read(c) for c in resync]
+        n_g92 = sum(1 for c in rd if c.code == "G92" and c.letters() == ["E"])
+        n_xy = sum(1 for c in rd if c.code in ("G0", "G1") and ("X" in c.letters() or "Y" in c.letters()))
+        n_z = sum(1 for c in rd if c.code in ("G0", "G1") and "Z" in c.letters() and "X" not in c.letters()
+                  and "Y" not in c.letters())
+        conds = [script == EXIT_LINES, n_g92 == 1, n_xy == 1, n_z <= 1, len(rd) == n_g92 + n_xy + n_z]
         if deferred is not None:
             c = rs274.read(flush[0]) if flush else None
             okf = c is not None and c.code == "M204" and c.letters() == ["P"] and c.get("P") is not None
